@@ -183,6 +183,10 @@ int main(int argc, char **argv) {
       if (!abortedAsExpected) if (auto *obls = w.getArray("obligations")) for (auto &ov : *obls) {
         const json::Object &o = *ov.getAsObject(); std::string kind = jstr(o, "kind"), mode = jstr(o, "mode", "EXACT");
         auto cellTerm = [&](RegionDecl &d, int64_t c) { AV v = I.peek(d.id, c * d.e.esz, d.e.esz, d.e.fp); return termOf(v); };
+        if (const char *ed = getenv("IRFLOW_EVALDUMP")) { // debugging aid: numeric value of every cell at one evaluation point
+          int pt = atoi(ed);
+          for (auto &d : regs) { if (d.cells > 160) continue; fprintf(stderr, "EVAL %s:", d.name.c_str()); for (int64_t c = 0; c < d.cells; c++) { std::unordered_map<int, long double> m; long double v; int t = cellTerm(d, c); if (d.e.fp ? evalReal(t, pt, m, v) : evalReal(t, pt, m, v)) fprintf(stderr, " %.10Lg", v); else fprintf(stderr, " ?"); } fprintf(stderr, "\n"); }
+        }
         auto report = [&](const CmpResult &r, const std::string &region, int64_t cell, int srcid) {
           nObl++;
           if (r.v == V_OK) { nOk++; return; }
